@@ -62,7 +62,7 @@ def native_tests(crate):
     """Harness self-tests + dependency-model validation, native, real dependencies."""
     d = replay_dir(crate)
     tdir = os.path.join(TARGET, "replay-" + crate)
-    rc, out, wall, to = run(["cargo", "test", "--offline", "--lib", "--target-dir", tdir], cwd=d,
+    rc, out, wall, to = run(["cargo", "test", "--offline", "--lib", "--target-dir", tdir, "--", "--nocapture", "--test-threads=1"], cwd=d,
                             env=env_offline({"RUSTUP_TOOLCHAIN": STABLE}), timeout=900,
                             log=os.path.join(LOGS, f"native-tests-{crate}.log"))
     m = re.search(r"test result: (\w+)\. (\d+) passed; (\d+) failed", out)
@@ -272,6 +272,9 @@ def run_property(prop, cfg, tier, jobs, known):
         # harness fails, the models/stubs diverge from the real build -> inconclusive (below).
         selftest_fails = re.findall(r"^test (\S+) \.\.\. FAILED", tout, re.M)
         native["failed"] = selftest_fails
+    # harnesses that panic natively on sample inputs (real dependencies)
+    native_panics = sorted(set(re.findall(r"SELFTEST-FAIL (\S+)", tout)))
+    native["harnesses_failing_natively"] = native_panics
     # 2. solver runs, one process per harness, worker slots with their own target dir
     slots = queue.Queue()
     nslots = max(1, min(jobs, len(harnesses)))
@@ -302,6 +305,11 @@ def run_property(prop, cfg, tier, jobs, known):
     if selftest_fails and all(r["verdict"] == "holds" for r in results):
         say("INCONCLUSIVE: native self-tests of the harness crate fail (" + ", ".join(selftest_fails)
             + ") but the solver reports no violation: models/stubs diverge from the real build, or a harness bug")
+        code = EXIT_INCONCLUSIVE
+    diverge = [r["name"] for r in results if r["verdict"] == "holds" and r["name"] in native_panics]
+    if diverge:
+        say("INCONCLUSIVE: harness(es) " + ", ".join(diverge) + " panic natively on sample inputs although the solver reports "
+            "no violation: models/stubs diverge from the real build")
         code = EXIT_INCONCLUSIVE
     never = sorted(named_all - sat_all)
     if never:
